@@ -90,7 +90,7 @@ func (r *r) start(name string, attrs ...Attr) {
 			sb.WriteString(" " + a.Name + `="` + a.Val + `"`)
 		}
 		sb.WriteString(">")
-		r.out = append(r.out, Tok{Kind: TPseudo, Text: sb.String()})
+		r.out = append(r.out, Tok{Kind: TPseudo, Name: name, Text: sb.String()})
 		return
 	}
 	r.out = append(r.out, Tok{Kind: TStart, Name: name, Attrs: attrs})
@@ -101,7 +101,7 @@ func (r *r) end(name string) {
 	// passed starts after "<"), so a name-set predicate does not reject them;
 	// predicates are given the string the library gives them
 	if r.cfg.Filter != nil && r.cfg.Filter("/"+name) {
-		r.out = append(r.out, Tok{Kind: TPseudo, Text: "</" + name + ">"})
+		r.out = append(r.out, Tok{Kind: TPseudo, Name: name, Text: "</" + name + ">"})
 		return
 	}
 	r.out = append(r.out, Tok{Kind: TEnd, Name: name})
@@ -448,9 +448,23 @@ func matchAttrVal(out string, pos int, want string, what string) (int, error) {
 // ones must).
 func Match(out string, toks []Tok, filtered bool) error {
 	pos := 0
+	// Newline runs directly before or after a block-level tag are insignificant
+	// inter-block white space (the library emits none today; a renderer that
+	// put each block-level tag on its own line would still satisfy the
+	// property). They are skipped, except between <pre> and </pre>.
+	skipNL := func() {
+		for pos < len(out) && out[pos] == '\n' {
+			pos++
+		}
+	}
+	inPre := 0
 	for ti, t := range toks {
 		what := fmt.Sprintf("token %d", ti)
 		var err error
+		isTag := func(k TokKind) bool { return k == TStart || k == TEnd || k == TPseudo }
+		if isTag(t.Kind) && blockLevel[t.Name] && (inPre == 0 || t.Name == "pre") {
+			skipNL()
+		}
 		switch t.Kind {
 		case TText:
 			pos, err = matchText(out, pos, t.Text, true, what+" (text)")
@@ -500,6 +514,18 @@ func Match(out string, toks []Tok, filtered bool) error {
 		}
 		if err != nil {
 			return err
+		}
+		if (t.Kind == TStart || (t.Kind == TPseudo && !strings.HasPrefix(t.Text, "</"))) && t.Name == "pre" {
+			inPre++
+		}
+		if (t.Kind == TEnd || (t.Kind == TPseudo && strings.HasPrefix(t.Text, "</"))) && t.Name == "pre" && inPre > 0 {
+			inPre--
+		}
+		if isTag(t.Kind) && blockLevel[t.Name] && inPre == 0 {
+			// after a block-level tag, when the next expected token is a tag or the end
+			if ti+1 >= len(toks) || isTag(toks[ti+1].Kind) || !strings.HasPrefix(toks[ti+1].Text, "\n") {
+				skipNL()
+			}
 		}
 	}
 	if pos != len(out) {
